@@ -238,6 +238,35 @@ impl Prop for C16 {
                 Some(Case::LangLine(l, format!("12 {} 2021", name.to_lowercase()), format!("12 {} 2021", re)))
             },
         ));
+        {
+            let mut codes: Vec<String> = crate::spec::spec().currencies.keys().cloned().collect();
+            for (alias, _) in crate::spec::spec().currency_alias.iter() {
+                if alias.chars().all(|c| c.is_alphabetic()) && !codes.contains(alias) {
+                    codes.push(alias.clone());
+                }
+            }
+            codes.sort();
+            let nc = codes.len();
+            f.push(Family::new(
+                "currency-case-all",
+                Mode::Full,
+                &format!("'10 <code>', '3 <code> + 2 <code>' and '10 usd to <code>' for every one of the {} configured currency codes and alias words (also the codes that are English words: all, cup, pen, top, mad ...), the code written UPPER, Capitalised and aLtErNaTiNg: same value as the lower-case spelling", nc),
+                move |ch| {
+                    let code = ch.pick(&codes).clone();
+                    let how = 1 + ch.choose(3) as u8;
+                    let re = recase(&code, how);
+                    if re == code || re.to_lowercase() != code {
+                        return None; // no cased letters, or a letter whose case pair is not one-to-one
+                    }
+                    let (a, b) = match ch.choose(3) {
+                        0 => (format!("10 {}", code), format!("10 {}", re)),
+                        1 => (format!("3 {} + 2 {}", code, code), format!("3 {} + 2 {}", re, recase(&code, 1))),
+                        _ => (format!("10 usd to {}", code), format!("10 usd to {}", re)),
+                    };
+                    Some(Case::LangLine("en".into(), a, b))
+                },
+            ));
+        }
         f.push(Family::new(
             "operator-gaps",
             Mode::Full,
@@ -384,7 +413,7 @@ impl Prop for C16 {
                         if let Run::Panic(p) = &b {
                             v.site = Some(p.site.clone());
                         }
-                        v.violation = Some("changing the letter case of a month name changed the value".into());
+                        v.violation = Some("changing the letter case of a month name or currency word changed the value".into());
                     }
                     _ => {
                         v.class = "not-evaluable";
